@@ -25,6 +25,9 @@ type Unit struct {
 	// ExtraContracts: additional contract file base names to load besides zz_verif_contracts.go
 	// (e.g. zz_verif_contracts_readonly.go: contracts that only one property wants in scope)
 	ExtraContracts []string `json:"extra_contract_files"`
+	// NoStructural: the property's structural side conditions are about packages this unit does
+	// not load; they are checked in the other units
+	NoStructural bool `json:"no_structural"`
 }
 
 type PropSpec struct {
@@ -227,6 +230,9 @@ func runUnits(ps *PropSpec, opts Options, overlay map[string][]byte) *runOutput 
 			}
 		}
 		for _, sc := range ps.Structural {
+			if u.NoStructural {
+				break
+			}
 			n, viol := runStructural(sc, P)
 			out.StructuralN += n
 			for _, sv := range viol {
